@@ -63,6 +63,20 @@ def check(ctx):
         for need in ('atom index', 'start site', 'destination site', 'start time', 'stop time'):
             if need not in cols:
                 ctx.ob('R2', fi, f"column '{need}'", False, f"the jump table has no column '{need}'")
+        st_ = cols.get('stop time')
+        if st_ is not None:
+            ok = st_.role is None and st_.idx is not None and st_.idx[0] == 'FRAME' and st_.at == 1
+            ctx.ob('R2', fi, "column 'stop time'", True if ok else (False if st_.role else None),
+                   'frame after the arrival event of the jump' if ok else
+                   f"'stop time' is derived from a field copied from the departure event ({st_.role}): for a jump through a 'no site' gap it is "
+                   f'a frame inside the gap, not the first frame at the destination')
+        ai = cols.get('atom index')
+        if ai is not None:
+            ok = ai.idx == ('ATOM',)
+            ctx.ob('R2', fi, "column 'atom index'", True if ok else (False if ai.idx is not None else None),
+                   'atom indices of the event table' if ok else
+                   (f'holds positions inside a filtered selection of atoms, not atom indices: jumps are attributed to the wrong atom'
+                    if ai.idx is not None and ai.idx[0] == 'SUBPOS' else f"'atom index' holds {ai.idx}"))
     # ---- R3
     n = 0
     for e in uniq_events(it, {'append'}, inside):
@@ -79,7 +93,13 @@ def check(ctx):
                 bad = True
         ctx.ob('R3', fi, e['node'], not bad, 'origin is a real site' if not bad else
                "a reported jump can carry the 'no site' marker as origin: departures are not restricted to real sites")
-    # ---- R5 per-atom scanner state
+    check_scanner_state(ctx, 'R5')
+    # ---- R4
+    check_residence(ctx, it, fi)
+
+
+def check_scanner_state(ctx, rule):
+    fi = ctx.fn(G2J)
     fors = [n_ for n_ in walk_no_nested(fi.node) if isinstance(n_, ast.For)]
     nested = []
     for o_ in fors:
@@ -87,7 +107,7 @@ def check(ctx):
             if isinstance(i_, ast.For) and isinstance(i_.iter, ast.Call) and isinstance(i_.iter.func, ast.Attribute) and i_.iter.func.attr == 'iterrows':
                 nested.append((o_, i_))
     if not nested:
-        ctx.ob('R5', fi, 'per-atom event scan', None, 'nested scan (atoms, then events of one atom) not recognised')
+        ctx.ob(rule, fi, 'per-atom event scan', None, 'nested scan (atoms, then events of one atom) not recognised')
     for o_, i_ in nested:
         stores = {n_.id for n_ in ast.walk(i_) if isinstance(n_, ast.Name) and isinstance(n_.ctx, ast.Store)}
         target_names = {n_.id for n_ in ast.walk(i_.target) if isinstance(n_, ast.Name)}
@@ -101,10 +121,12 @@ def check(ctx):
                     reset.add(n_.id)
         for name in carried:
             ok = name in reset
-            ctx.ob('R5', fi, f'scanner state `{name}`', ok, 'reset for every atom before its events are scanned' if ok else
+            ctx.ob(rule, fi, f'scanner state `{name}`', ok, 'reset for every atom before its events are scanned' if ok else
                    f'`{name}` carries state from one event to the next but is not reset when the scan moves on to the next atom: a pending '
                    f'departure of one atom is completed by an arrival of the following atom (phantom jump, depends on the atom order)')
-    # ---- R4
+
+
+def check_residence(ctx, it, fi):
     prm = 'minimal_residence'
     uses = [n_ for n_ in walk_no_nested(fi.node) if isinstance(n_, ast.Name) and n_.id == prm and isinstance(n_.ctx, ast.Load)]
     pm = {}
